@@ -18,7 +18,8 @@ EXPLANATION = (
     'tabled subset dispatch; the pre-removal window of UNORDERED_NOREPL and the PERMUTATION overflow rule have '
     'the documented shape; (A15) where an order-sensitive constraint reaches the index-combination filter the '
     'column order must depend on the order of constraint.nodes (it does not: known finding F12); linked '
-    'design-variable nodes: see C16.  Not decided: exactness of the offered architectures.')
+    'design-variable nodes: see C16.  Not decided: exactness of the offered architectures.'
+    ' (A14p) the PERMUTATION overflow removal is applied only under the all-permanent test (F25; CFG dominance plus path-sensitive interpretation); option lists of a constraint come from get_option_nodes.')
 
 DOC = {'LINKED': '=', 'PERMUTATION': '!=', 'UNORDERED': '<=', 'UNORDERED_NOREPL': '<'}
 ORDER_SENSITIVE = {'UNORDERED', 'UNORDERED_NOREPL'}
